@@ -172,7 +172,7 @@ def r17_2(prog, rep):
         it = None
         for b, i, c, ln in f.all_calls():
             if c.get("fn") == "bi383_next":
-                t = lv(strip_casts(cfg.resolve(c["a"][1])))
+                t = lv(strip_casts(f.expand(cfg.resolve(c["a"][1]))))
                 if t.startswith("&" + (a_sh or "?")):
                     it = t
         if a_cp == a_sh and it:
